@@ -62,11 +62,11 @@ class System:
             q.append(self.w.wire(pdu))
             self.trace.append((who, "dup", describe(pdu)))
             return
-        if kind == "swap":
-            # held back behind the next PDU of the same direction (reordering)
+        if kind in ("swap", "swap2"):
+            # held back behind the next one / two PDUs of the same direction (reordering)
             self.used += 1
-            q.append(("HOLD", pdu))
-            self.trace.append((who, "swap", describe(pdu)))
+            q.append(["HOLD", pdu, 1 if kind == "swap" else 2])
+            self.trace.append((who, kind, describe(pdu)))
             return
         q.append(pdu)
 
@@ -74,15 +74,28 @@ class System:
     def _pop(q):
         if not q:
             return None
-        if isinstance(q[0], tuple):
-            # a held-back PDU goes after the next one; if nothing follows it is simply late
-            if len(q) >= 2:
-                nxt = q.pop(1)
-                if isinstance(nxt, tuple):
-                    nxt = nxt[1]
-                return nxt
+        if isinstance(q[0], list):
+            # a held-back PDU lets the next n PDUs of its direction pass; it waits for them
+            if q[0][2] > 0:
+                if len(q) >= 2:
+                    q[0][2] -= 1
+                    nxt = q.pop(1)
+                    if isinstance(nxt, list):
+                        nxt = nxt[1]
+                    return nxt
+                return None
             return q.pop(0)[1]
         return q.pop(0)
+
+    def _only_held(self):
+        items = self.to_dst + self.to_src
+        return bool(items) and all(isinstance(i, list) and i[2] > 0 for i in items)
+
+    def _release_holds(self):
+        for q in (self.to_dst, self.to_src):
+            for i in q:
+                if isinstance(i, list):
+                    i[2] = 0
 
     def start(self):
         o = self.src.put(src=self.src_name, dst=self.dst_name, mode=self.put_mode, closure=self.put_closure)
@@ -171,6 +184,10 @@ class System:
                     self.step_dst(deliver=False)
             self.step_dst()
             after = (len(self.to_dst), len(self.to_src), self.src.h.step, self.dst.h.step)
+            if before == after and self._only_held():
+                # nothing else is going to overtake the held PDUs: they are simply late
+                self._release_holds()
+                self.trace.append(("link", "held PDUs released"))
             self._stalled = self.quiet() and before == after
             if self.exceptions:
                 return False
